@@ -1,7 +1,9 @@
 (* C19 — a refinement run never loses the user's model, whatever SHELXL does.
    Statements only (copied from Proofs/RefineProofs.v by harness/mkprops.py).  Model: Model/Refine.v.  SHELXL, the parser, the
    writer and the recognition of ACTA / UNIT / the cycles instruction are universally quantified functions; the only
-   hypothesis on SHELXL is that it leaves the backup copy alone. *)
+   hypothesis on SHELXL is that it leaves the backup copy alone.  Crash points: C19_refine_crash_safe quantifies over every state
+   the file system passes through during refine() - after each file operation of the protocol and at every moment of the SHELXL
+   run - and shows that the user's model is then on disk in the .res file or in the backup file (a file copy is taken as atomic). *)
 From SX Require Import Base.Prelude Base.Str Model.Refine Proofs.RefineProofs.
 
 Theorem C19_refine_failure_restores (shelxl : fs -> Z * fs) (parse : str -> list str) (render : list str -> str) (is_acta is_unit : str -> bool)
@@ -41,3 +43,32 @@ Theorem C19_refine_example :
   fst (fst r) = Failed /\ snd (fst r) FRes = f0 FRes /\ snd (fst r) FBak = None /\ snd r = lit "UNIT 1L.S. 4".
 Proof. exact (refine_example ). Qed.
 Print Assumptions C19_refine_example.
+
+Theorem C19_refine_crash_safe (shelxl : fs -> Z * fs) (during : fs -> list fs) (parse : str -> list str) (render : list str -> str)
+  (is_acta is_unit : str -> bool) (set_cycles : nat -> list str -> list str) (cycles : option nat) (lines : list str) (f : fs) (old : str) :
+  (forall g, snd (shelxl g) FBak = g FBak) -> (forall g h, In h (during g) -> h FBak = g FBak) ->
+  f FRes = Some old ->
+  forall g, In g (refine_trace shelxl during render is_acta set_cycles cycles lines f) -> g FRes = Some old \/ g FBak = Some old.
+Proof. exact (refine_crash_safe shelxl during parse render is_acta is_unit set_cycles cycles lines f old). Qed.
+Print Assumptions C19_refine_crash_safe.
+
+Theorem C19_refine_trace_ends (shelxl : fs -> Z * fs) (during : fs -> list fs) (parse : str -> list str) (render : list str -> str)
+  (is_acta is_unit : str -> bool) (set_cycles : nat -> list str -> list str) (cycles : option nat) (lines : list str) (f : fs) :
+  last (refine_trace shelxl during render is_acta set_cycles cycles lines f) f =
+  snd (fst (refine shelxl parse render is_acta is_unit set_cycles cycles lines f)).
+Proof. exact (refine_trace_ends shelxl during parse render is_acta is_unit set_cycles cycles lines f). Qed.
+Print Assumptions C19_refine_trace_ends.
+
+Theorem C19_crash_example :
+  let old := lit "TITL x / UNIT 1 / L.S. 4 / HKLF 4" in
+  let f0 : fs := fun n => match n with FRes => Some old | _ => None end in
+  let shelxl := fun g : fs => ((-9)%Z, upd_fs g FRes None) in
+  let during := fun g : fs => [upd_fs g FRes (Some []); upd_fs g FRes None] in
+  forallb (fun g : fs => match g FRes, g FBak with
+                         | Some s, _ => if list_eq_dec Ascii.ascii_dec s old then true else match g FBak with Some b => if list_eq_dec Ascii.ascii_dec b old then true else false | None => false end
+                         | None, Some b => if list_eq_dec Ascii.ascii_dec b old then true else false
+                         | None, None => false end)
+          (refine_trace shelxl during (fun l => concat l) (fun _ => false) (fun _ l => l) None [lit "UNIT 1"] f0) = true
+  /\ length (refine_trace shelxl during (fun l => concat l) (fun _ => false) (fun _ l => l) None [lit "UNIT 1"] f0) = 9%nat.
+Proof. exact (crash_example ). Qed.
+Print Assumptions C19_crash_example.
